@@ -4,7 +4,9 @@
  *        c17_pcm --mkloud out.ogg ch rate n shift serial     (stream generator, see mkloud())
  *
  * case lines  "<idx> <kind> ..."           fmt = 0..7 : word = (fmt&4)?2:1, sgned = (fmt>>1)&1, bigendianp = fmt&1
- *   T <path> <fmt> <len>          twin read-through: ov_read(A,len) against ov_read_float(B) at every position reached;
+ *   T <path> <fmt> <len> [half]   (half=1: ov_halfrate(vf,1) on both handles before the first read; ov_pcm_tell must then advance by
+ *                                 exactly 2 per frame returned and the bytes are the conversion of the half-rate float decode)
+ *                                 twin read-through: ov_read(A,len) against ov_read_float(B) at every position reached;
  *                                 when len is smaller than one frame of the link being read the call must be refused
  *                                 (negative return, 0 tolerated at end of stream) without touching the buffer; the walk then
  *                                 advances both handles with ov_read_float by 1,2,3.. frames.
@@ -12,7 +14,7 @@
  *   V <path> <fmt> <lo> <hi> [len]   value enumeration: the filter callback of ov_read_filter overwrites the decoded block
  *                                 with the float bit patterns lo..hi-1 (frame-major, channel-minor); the packed bytes are
  *                                 compared with the reference for exactly those values.  The stream is looped with ov_pcm_seek(0).
- *   G <path> <fmt> <part> <nparts>   same through the filter, but the values are slice part/nparts of the stratified
+ *   G <path> <fmt> <part> <nparts> [half]   same through the filter, but the values are slice part/nparts of the stratified
  *                                 boundary set built by strat_build() (sorted, deduplicated, identical in every process).
  *
  * reference (independent of the library, double arithmetic, exact for every float):
@@ -158,7 +160,7 @@ static inline unsigned char canary(long i){ return (unsigned char)(0xA5^(i*29)^(
 static void fill_canary(unsigned char *raw,long n){ long i; for(i=0;i<n;i++)raw[i]=canary(i); }
 static long first_touched(const unsigned char *raw,long from,long to){ long i; for(i=from;i<to;i++)if(raw[i]!=canary(i))return i; return -1; }
 
-static void run_values(long idx,const char *path,int fmt,uint64_t lo,uint64_t hi,const uint32_t *arr,int len){
+static void run_values(long idx,const char *path,int fmt,uint64_t lo,uint64_t hi,const uint32_t *arr,int len,int half){
   int word=(fmt&4)?2:1,sgned=(fmt>>1)&1,be=fmt&1; fent *f=get_file(path); memio m; OggVorbis_File vf; tally t; vsrc s; int orc;
   unsigned char *raw=(unsigned char*)__real_malloc(GUARD+len+GUARD+SLACK); char what[200]; long eofs=0,consec_eof=0,dirty=0; long maxframes=0,chans=0;
   h128 hh; char hx[40]="-";
@@ -168,6 +170,7 @@ static void run_values(long idx,const char *path,int fmt,uint64_t lo,uint64_t hi
   mio_init(&m,f->data,f->len);
   orc=ov_open_callbacks(&m,&vf,NULL,0,mio_cb_seekable);
   if(orc<0){ printf("%ld bad what=open%d\n",idx,orc); __real_free(raw); __real_free(s.rec); return; }
+  if(half&&ov_halfrate(&vf,1))snprintf(what,sizeof(what),"halfrate_refused");
   while(s.cur<s.hi&&!what[0]){
     int bs=-1; long r,fr,k,bps; ogg_int64_t p0=ov_pcm_tell(&vf),p1;
     for(k=GUARD;k<GUARD+dirty;k++)raw[k]=canary(k);     /* everything else was verified untouched after the previous call */
@@ -185,7 +188,7 @@ static void run_values(long idx,const char *path,int fmt,uint64_t lo,uint64_t hi
     if(r>len){ snprintf(what,sizeof(what),"retval_exceeds_length:%ld>%d",r,len); break; }
     fr=s.samples; if(fr>maxframes)maxframes=fr;
     p1=ov_pcm_tell(&vf);
-    if(p1!=p0+fr){ snprintf(what,sizeof(what),"tell_advance:%ld+%ld!=%ld",(long)p0,fr,(long)p1); break; }
+    if(p1!=p0+(fr<<half)){ snprintf(what,sizeof(what),"tell_advance:%ld+%ldx%d!=%ld",(long)p0,fr,1<<half,(long)p1); break; }
     if((k=first_touched(raw,0,GUARD))>=0||(k=first_touched(raw,GUARD+r,GUARD+len+GUARD))>=0){ snprintf(what,sizeof(what),"canary_touched_at:%ld:ret%ld",k-GUARD,r); break; }
     for(k=0;k<s.valid;k++)judge(s.rec[k],word,sgned,be,raw+GUARD+k*word,&t);
     if(g_hash)h_bytes(&hh,raw+GUARD,s.valid*word);
@@ -194,7 +197,7 @@ static void run_values(long idx,const char *path,int fmt,uint64_t lo,uint64_t hi
   printf("%ld %s",idx,(what[0]||t.bad)?"bad":"ok");
   print_tally(&t);
   if(g_hash)h_hex(&hh,hx);
-  printf(" calls=%ld eofs=%ld ch=%ld maxframes=%ld hash=%s what=%s\n",s.calls,eofs,chans,maxframes,hx,what[0]?what:"-");
+  printf(" calls=%ld eofs=%ld ch=%ld maxframes=%ld half=%d hash=%s what=%s\n",s.calls,eofs,chans,maxframes,half,hx,what[0]?what:"-");
   __real_free(raw); __real_free(s.rec);
 }
 
@@ -216,7 +219,7 @@ static long float_step(OggVorbis_File *A,OggVorbis_File *B,long want,float *tmp,
   return nA;
 }
 
-static void run_twin(long idx,const char *path,int fmt,int len,int wordover){
+static void run_twin(long idx,const char *path,int fmt,int len,int wordover,int half){
   int word=(fmt&4)?2:1,sgned=(fmt>>1)&1,be=fmt&1; fent *f=get_file(path); memio ma,mb; OggVorbis_File A,B; tally t; char what[240];
   unsigned char *raw; long reads=0,rej=0,rejcodes[2]={0,0},frames_total=0,multi=0,maxch=0,minch=999,step=0; ogg_int64_t total; float *tmp; long tmpcap=255*128;
   int nonpos=(wordover<=0);   /* W case: word = wordover (<=0) */
@@ -228,6 +231,8 @@ static void run_twin(long idx,const char *path,int fmt,int len,int wordover){
   if(ov_open_callbacks(&ma,&A,NULL,0,mio_cb_seekable)<0){ printf("%ld bad what=openA\n",idx); return; }
   if(ov_open_callbacks(&mb,&B,NULL,0,mio_cb_seekable)<0){ printf("%ld bad what=openB\n",idx); ov_clear(&A); return; }
   total=ov_pcm_total(&A,-1);
+  /* half-rate decoding switched on before the first read, on both handles: a frame is then worth 2 positions */
+  if(half&&(ov_halfrate(&A,1)||ov_halfrate(&B,1)))snprintf(what,sizeof(what),"halfrate_refused");
   while(!what[0]){
     ogg_int64_t pa=ov_pcm_tell(&A),pb=ov_pcm_tell(&B),pa2; int ateof,ch,frame,bs=-1; long r,k;
     if(pa!=pb){ snprintf(what,sizeof(what),"twin_positions_differ:%ld:%ld",(long)pa,(long)pb); break; }
@@ -237,15 +242,17 @@ static void run_twin(long idx,const char *path,int fmt,int len,int wordover){
     if((k=first_touched(raw,0,GUARD))>=0||(k=first_touched(raw,GUARD+len,GUARD+len+GUARD))>=0){ snprintf(what,sizeof(what),"wrote_outside_buffer:off%ld:len%d:pos%ld",k-GUARD,len,(long)pa); break; }
     if(nonpos||len<frame){
       long adv;
-      if(!(r<0||(r==0&&ateof))){ snprintf(what,sizeof(what),"%s_not_refused:ret%ld:len%d:frame%d:pos%ld",nonpos?"nonpositive_word":"small_buffer",r,len,frame,(long)pa); break; }
+      if(!(r<0||(r==0&&(ateof||half)))){ snprintf(what,sizeof(what),"%s_not_refused:ret%ld:len%d:frame%d:pos%ld",nonpos?"nonpositive_word":"small_buffer",r,len,frame,(long)pa); break; }
       if((k=first_touched(raw,GUARD,GUARD+len))>=0){ snprintf(what,sizeof(what),"%s_refused_but_wrote:off%ld:ret%ld:len%d:pos%ld",nonpos?"nonpositive_word":"small_buffer",k-GUARD,r,len,(long)pa); break; }
       if(ov_pcm_tell(&A)!=pa){ snprintf(what,sizeof(what),"refused_read_moved_position:%ld->%ld",(long)pa,(long)ov_pcm_tell(&A)); break; }
       rej++; if(r==OV_EINVAL)rejcodes[0]++; else rejcodes[1]++;
-      if(ateof)break;
+      if(ateof&&!half)break;
       step=step%41+1;
       adv=float_step(&A,&B,step,tmp,tmpcap);
       if(adv<0){ snprintf(what,sizeof(what),"float_twins_diverged:%ld:pos%ld",adv,(long)pa); break; }
-      if(adv==0&&!(ov_pcm_tell(&A)>=total)){ snprintf(what,sizeof(what),"float_eof_before_total:%ld<%ld",(long)ov_pcm_tell(&A),(long)total); break; }
+      /* half-rate: where the stream ends in position units is C20's business; end of stream = the float twins deliver nothing */
+      if(r==0&&adv!=0){ snprintf(what,sizeof(what),"%s_not_refused:ret0_but_stream_continues:len%d:frame%d:pos%ld",nonpos?"nonpositive_word":"small_buffer",len,frame,(long)pa); break; }
+      if(adv==0){ if(!half&&!(ov_pcm_tell(&A)>=total))snprintf(what,sizeof(what),"float_eof_before_total:%ld<%ld",(long)ov_pcm_tell(&A),(long)total); break; }
       continue;
     }
     if(r<0){ snprintf(what,sizeof(what),"unexpected_error:ret%ld:len%d:pos%ld",r,len,(long)pa); break; }
@@ -253,7 +260,7 @@ static void run_twin(long idx,const char *path,int fmt,int len,int wordover){
       float **pp; long nb=ov_read_float(&B,&pp,1024,&bs);
       if(nb!=0){ snprintf(what,sizeof(what),"int_eof_but_float_continues:pos%ld:float%ld",(long)pa,nb); break; }
       if((k=first_touched(raw,GUARD,GUARD+len))>=0){ snprintf(what,sizeof(what),"eof_but_wrote:off%ld",k-GUARD); break; }
-      if(pa!=total){ snprintf(what,sizeof(what),"eof_before_total:%ld<%ld",(long)pa,(long)total); break; }
+      if(!half&&pa!=total){ snprintf(what,sizeof(what),"eof_before_total:%ld<%ld",(long)pa,(long)total); break; }
       break;
     }
     if(r>len){ snprintf(what,sizeof(what),"retval_exceeds_length:%ld>%d:pos%ld",r,len,(long)pa); break; }
@@ -262,7 +269,7 @@ static void run_twin(long idx,const char *path,int fmt,int len,int wordover){
     {
       long fr=r/frame,got=0;
       pa2=ov_pcm_tell(&A);
-      if(pa2!=pa+fr){ snprintf(what,sizeof(what),"tell_advance:%ld+%ld!=%ld:len%d",(long)pa,fr,(long)pa2,len); break; }
+      if(pa2!=pa+(fr<<half)){ snprintf(what,sizeof(what),"tell_advance:%ld+%ldx%d!=%ld:len%d",(long)pa,fr,1<<half,(long)pa2,len); break; }
       while(got<fr&&!what[0]){
         float **pp; int b2; long j,c,nb=ov_read_float(&B,&pp,(int)(fr-got),&b2);
         if(nb<=0){ snprintf(what,sizeof(what),"float_twin_short:%ld:after%ld_of%ld:pos%ld",nb,got,fr,(long)pa); break; }
@@ -282,7 +289,7 @@ static void run_twin(long idx,const char *path,int fmt,int len,int wordover){
   ov_clear(&A); ov_clear(&B);
   printf("%ld %s",idx,(what[0]||t.bad2)?"bad":"ok");
   print_tally(&t);
-  printf(" reads=%ld rej=%ld einval=%ld frames=%ld multi=%ld maxch=%ld minch=%ld total=%ld what=%s\n",reads,rej,rejcodes[0],frames_total,multi,maxch,minch,(long)total,what[0]?what:"-");
+  printf(" reads=%ld rej=%ld einval=%ld frames=%ld multi=%ld maxch=%ld minch=%ld total=%ld half=%d what=%s\n",reads,rej,rejcodes[0],frames_total,multi,maxch,minch,(long)total,half,what[0]?what:"-");
   __real_free(raw); __real_free(tmp);
 }
 
@@ -342,17 +349,18 @@ int main(int argc,char **argv){
   cf=fopen(cases,"r"); if(!cf)return 2;
   signal(SIGVTALRM,on_alarm);
   while(getline(&line,&lcap,cf)>0){
-    char kind[8],path[400]; long idx; int fmt,len; unsigned long long lo,hi; struct itimerval it; int nf;
+    char kind[8],path[400]; long idx; int fmt,len,half; unsigned long long lo,hi; struct itimerval it; int nf;
     if(sscanf(line,"%ld %7s",&idx,kind)!=2)continue;
     g_cur=idx;
     if(deadline&&time(NULL)>=deadline){ printf("%ld SKIP\n",idx); fflush(stdout); continue; }   /* budget only; never part of a verdict */
     memset(&it,0,sizeof(it)); it.it_value.tv_sec=timeout; setitimer(ITIMER_VIRTUAL,&it,NULL);
-    if(kind[0]=='T'&&sscanf(line,"%*d %*s %399s %d %d",path,&fmt,&len)==3&&fmt>=0&&fmt<8)run_twin(idx,path,fmt,len,1);
-    else if(kind[0]=='W'&&sscanf(line,"%*d %*s %399s %d %d",path,&fmt,&len)==3&&fmt<=0)run_twin(idx,path,2,len,fmt);
-    else if(kind[0]=='V'&&(nf=sscanf(line,"%*d %*s %399s %d %llu %llu %d",path,&fmt,&lo,&hi,&len))>=4&&fmt>=0&&fmt<8&&lo<=hi&&hi<=(1ULL<<32)){ if(nf<5)len=65536; run_values(idx,path,fmt,lo,hi,NULL,len); }
-    else if(kind[0]=='G'&&sscanf(line,"%*d %*s %399s %d %llu %llu",path,&fmt,&lo,&hi)==4&&fmt>=0&&fmt<8&&hi>0&&lo<hi){
+    half=0;
+    if(kind[0]=='T'&&sscanf(line,"%*d %*s %399s %d %d %d",path,&fmt,&len,&half)>=3&&fmt>=0&&fmt<8&&(half==0||half==1))run_twin(idx,path,fmt,len,1,half);
+    else if(kind[0]=='W'&&sscanf(line,"%*d %*s %399s %d %d",path,&fmt,&len)==3&&fmt<=0)run_twin(idx,path,2,len,fmt,0);
+    else if(kind[0]=='V'&&(nf=sscanf(line,"%*d %*s %399s %d %llu %llu %d",path,&fmt,&lo,&hi,&len))>=4&&fmt>=0&&fmt<8&&lo<=hi&&hi<=(1ULL<<32)){ if(nf<5)len=65536; run_values(idx,path,fmt,lo,hi,NULL,len,0); }
+    else if(kind[0]=='G'&&sscanf(line,"%*d %*s %399s %d %llu %llu %d",path,&fmt,&lo,&hi,&half)>=4&&fmt>=0&&fmt<8&&hi>0&&lo<hi&&(half==0||half==1)){
       strat_build();
-      run_values(idx,path,fmt,(uint64_t)g_nstrat*lo/hi,(uint64_t)g_nstrat*(lo+1)/hi,g_strat,65536);
+      run_values(idx,path,fmt,(uint64_t)g_nstrat*lo/hi,(uint64_t)g_nstrat*(lo+1)/hi,g_strat,65536,half);
     }
     else printf("%ld bad what=badcase\n",idx);
     memset(&it,0,sizeof(it)); setitimer(ITIMER_VIRTUAL,&it,NULL);
